@@ -191,6 +191,9 @@ def Acc.visit (a : Acc) (price : Nat) (taker : Id) (o : Order) (r : MatchOut) : 
     else a
   { a1 with stats := a1.stats.recordExec r.consumed o.price }
 
+/-- an order that made no progress is kept out of the queue until the match is over -/
+def Acc.pushAside (a : Acc) (u : Order) : Acc := { a with aside := a.aside ++ [u] }
+
 /-- the counter updates done when the visited maker is re-queued -/
 def Acc.requeue (a : Acc) (hr : Nat) : Acc :=
   if hr > 0 then { a with hid := wsub a.hid hr, vis := wadd a.vis hr } else a
@@ -283,7 +286,7 @@ def matchLoop (price : Nat) (taker : Id) (rem : Nat) (m : OMap) (ts : List Id) (
     match hu : r.updated with
     | some u =>
       if hs : r.consumed = 0 ∧ r.hiddenRed = 0 then
-        matchLoop price taker r.remaining m' ts' { a2 with aside := a2.aside ++ [u] }
+        matchLoop price taker r.remaining m' ts' (a2.pushAside u)
       else
         matchLoop price taker r.remaining (m'.insert u) (ts' ++ [u.id]) (a2.requeue r.hiddenRed)
     | none =>
@@ -311,15 +314,20 @@ def requeueAside (m : OMap) (ts : List Id) : List Order → OMap × List Id
   | [] => (m, ts)
   | o :: rest => requeueAside (m.insert o) (ts ++ [o.id]) rest
 
+/-- what `match_order` does once its loop has stopped: re-queue the set-aside orders, publish the
+    result -/
+def Level.finishMatch (l : Level) (taker : Id) (res : Nat × OMap × List Id × Acc) :
+    Level × MatchResult × Nat :=
+  let a := res.2.2.2
+  let rq := requeueAside res.2.1 res.2.2.1 a.aside
+  ({ l with vis := a.vis, hid := a.hid, cnt := a.cnt, stats := a.stats, map := rq.1, tickets := rq.2 },
+   { taker := taker, txs := a.txs, remaining := res.1, complete := res.1 == 0, filled := a.filled },
+   a.g)
+
 /-- `PriceLevel::match_order` (level.rs:161-249). `g` is the transaction-id generator's counter. -/
 def Level.matchOrder (l : Level) (q : Nat) (taker : Id) (g : Nat) : Level × MatchResult × Nat :=
-  let (rem, m, ts, a) :=
-    matchLoop l.price taker q l.map l.tickets
-      { vis := l.vis, hid := l.hid, cnt := l.cnt, stats := l.stats, g := g }
-  let (m', ts') := requeueAside m ts a.aside
-  ({ l with vis := a.vis, hid := a.hid, cnt := a.cnt, stats := a.stats, map := m', tickets := ts' },
-   { taker := taker, txs := a.txs, remaining := rem, complete := rem == 0, filled := a.filled },
-   a.g)
+  l.finishMatch taker (matchLoop l.price taker q l.map l.tickets
+      { vis := l.vis, hid := l.hid, cnt := l.cnt, stats := l.stats, g := g })
 
 /-! ## `update_order` -/
 
